@@ -29,8 +29,12 @@ type gzipResponseWriter struct {
 
 	buf            bytes.Buffer
 	bufferExceeded bool // Track if we exceeded max buffer size
+	headerSent     bool // Track if the status line/headers were forwarded
 }
 
+// WriteHeader records the status. It is forwarded by sendHeader once the
+// Content-Encoding / Content-Length decision has been made: the underlying
+// writer snapshots the header map at WriteHeader, later changes are lost.
 func (g *gzipResponseWriter) WriteHeader(code int) {
 	if g.wroteHeader {
 		return
@@ -38,7 +42,19 @@ func (g *gzipResponseWriter) WriteHeader(code int) {
 
 	g.statusCode = code
 	g.wroteHeader = true
-	g.ResponseWriter.WriteHeader(code)
+}
+
+// sendHeader forwards the recorded status (200 if none) exactly once.
+func (g *gzipResponseWriter) sendHeader() {
+	if g.headerSent {
+		return
+	}
+	if !g.wroteHeader {
+		g.statusCode = http.StatusOK
+		g.wroteHeader = true
+	}
+	g.headerSent = true
+	g.ResponseWriter.WriteHeader(g.statusCode)
 }
 
 func (g *gzipResponseWriter) Write(b []byte) (int, error) {
@@ -47,6 +63,7 @@ func (g *gzipResponseWriter) Write(b []byte) (int, error) {
 		// Mark as exceeded and fall back to streaming uncompressed
 		if !g.bufferExceeded {
 			g.bufferExceeded = true
+			g.sendHeader()
 			// Flush existing buffer uncompressed
 			if g.buf.Len() > 0 {
 				_, _ = g.ResponseWriter.Write(g.buf.Bytes())
@@ -60,6 +77,12 @@ func (g *gzipResponseWriter) Write(b []byte) (int, error) {
 }
 
 func (g *gzipResponseWriter) Flush() {
+	// While the body is still being buffered there is nothing to flush, and
+	// flushing the underlying writer would send the header before the
+	// encoding decision has been made.
+	if !g.headerSent {
+		return
+	}
 	if f, ok := g.ResponseWriter.(http.Flusher); ok {
 		f.Flush()
 	}
@@ -73,10 +96,6 @@ func (g *gzipResponseWriter) Hijack() (net.Conn, *bufio.ReadWriter, error) {
 }
 
 func (g *gzipResponseWriter) Finish() error {
-	if !g.wroteHeader {
-		g.WriteHeader(http.StatusOK)
-	}
-
 	// If buffer was exceeded, data was already streamed uncompressed
 	if g.bufferExceeded {
 		return nil
@@ -89,6 +108,7 @@ func (g *gzipResponseWriter) Finish() error {
 		cl, err := strconv.Atoi(clHeader)
 		// if Content-Length header found and is less than the minSize then return the body as is.
 		if err == nil && cl < g.minSize {
+			g.sendHeader()
 			_, err := g.ResponseWriter.Write(body)
 			return err
 		}
@@ -96,6 +116,7 @@ func (g *gzipResponseWriter) Finish() error {
 
 	// acts as a fallback when Content-Length is not available.
 	if len(body) < g.minSize {
+		g.sendHeader()
 		_, err := g.ResponseWriter.Write(body)
 		return err
 	}
@@ -103,6 +124,7 @@ func (g *gzipResponseWriter) Finish() error {
 	// return body as is when Content-Type doesn't match specified in Config
 	ct := g.Header().Get("Content-Type")
 	if !matchesContentType(ct, g.contentTypes) {
+		g.sendHeader()
 		_, err := g.ResponseWriter.Write(body)
 		return err
 	}
@@ -110,6 +132,7 @@ func (g *gzipResponseWriter) Finish() error {
 	g.Header().Set("Content-Encoding", "gzip")
 	// Remove Content-Length since compressed size differs from original
 	g.Header().Del("Content-Length")
+	g.sendHeader()
 
 	gz, err := gzip.NewWriterLevel(g.ResponseWriter, g.level)
 	if err != nil {
